@@ -41,6 +41,23 @@ HISTORY = {
     "C17-B": ("C17", "a bare void <embed> not inside <object>", "caught", ""),
     "C20-A": ("C20", "a 192-bit key (extra SubWord step applied for Nk = 6)", "caught", ""),
     "C20-B": ("C20", "stream-wrapper encryption of a block-aligned message (padding block dropped)", "caught", ""),
+    "C04-A": ("C04", "RTF run holding a lone low surrogate written as \\uN (no high surrogate before it)", "caught", ""),
+    "C04-B": ("C04", "table whose first row has fewer cells than a later row (merged banner row)", "caught", ""),
+    "C09-A": ("C09", "7z empty-file entry (no data stream, EmptyFile flag) named absolutely or with ../", "caught", ""),
+    "C09-B": ("C09", "nested archive with a compound extension (.tar.gz / .tar.bz2 / .tar.xz) inside an archive", "caught", ""),
+    "C10-A": ("C10", "7z with a folder of >= 2 files after another folder (layouts [3,2], [1,4], [2,2,1])", "caught", ""),
+    "C10-B": ("C10", "deflated ZIP member whose damage breaks the deflate syntax (zlib.error instead of a CRC mismatch)", "caught", ""),
+    "C14-A": ("C14", "PDF image XObject with a filter cascade [/FlateDecode /DCTDecode]", "missed", "(pending: builder asked to render filter forms)"),
+    "C14-B": ("C14", "XLSX whose drawing part names do not follow sheet order", "caught", ""),
+    "C15-A": ("C15", "two PDFs sharing one embedded font, glyph set of the second a strict subset of the first, wide one first", "missed",
+              "(pending: builder asked for subset / superset glyph-set histories)"),
+    "C15-B": ("C15", "two threads whose page extractions overlap and finish in entry order (lock released during the body)", "caught", ""),
+    "C18-A": ("C18", "a folder item whose facet is the empty object {}", "missed",
+              "the fake Graph transport now draws facet shapes ({} / {childCount} / extra keys) and optional members per item"),
+    "C18-B": ("C18", "4xx other than 404 on the folder-resolution request of a filtered listing", "caught", ""),
+    "C19-A": ("C19", "structural element without its optional property nested around one that has it (descendant lookup)", "caught", ""),
+    "C19-B": ("C19", "bracket-only radical followed by a run mixing a mapped symbol and the closing bracket", "missed",
+              "(pending: builder asked to add such runs to the universe)"),
 }
 
 
